@@ -8,17 +8,18 @@ the evaluation of the `_parse` call `a` (of the transcribed parser `parse g s fu
 *propagating positions* (`ImplStep`, `Lemmas/FatalPath.lean`: And first / later element, MatchFirst alternative after
 soft failures, Opt, first / later iteration of OneOrMore / ZeroOrMore, Group / Suppress / Combine / Forward / plain
 ParseElementEnhance, FollowedBy, Located; and the positions the property text does not name but the code propagates
-from as well: the SkipTo target (scan and `include` re-parse), the ignore-expressions run by `preParse` and by the
-repetition loop), nested to any depth; `ts` lists, outermost first, what each container
+from as well: the SkipTo target (scan and `include` re-parse), the ignore-expressions run by `preParse`, by the
+repetition loop and by the pre-parse inside Or / StringStart, the real re-parse of Or's best trial match), nested to
+any depth; `ts` lists, outermost first, what each container
 does to an exception on its way out (`Tag`).
 
 Not propagating positions (and deliberately not constructors): NotAny, `stop_on`, SkipTo `fail_on` / `ignore`
 (they go through `try_parse`, which converts a fatal into a non-match: `tryParse_converts_fatal`,
 `notany_treats_fatal_as_nonmatch`), Or (raises a collected fatal only if nothing matched:
 `or_fatal_only_if_none_matched`), Each (outside the model).
-Propagating in the code but NOT covered by a constructor here: the alternative re-parsed by Or after its trial pass,
-and the ignore-expressions run by the pre-parse that Or and StringStart do inside their `parseImpl`
-(LineStart's own `preParse` runs no sub-expression: `Step.ignore` excludes it).
+Propagating in the code but NOT covered by a constructor here: the re-parse by Or (with actions) of a *shorter* trial
+match after the re-parse of the longest one failed softly (`orPass2`, second and later candidates).
+(LineStart's own `preParse` runs no sub-expression: `Step.ignore` excludes it.)
 -/
 namespace PP.Parse
 
@@ -220,5 +221,20 @@ example : parse exIgn ['#', '?', 'a'] 5 0 0 true true = .fail .syntax 1 :=
       (.andLater (pfx := [3]) (post := []) (l0 := 1) (ts0 := [.s ['#']]) (stop := true) (acc := [.s ['#']])
         rfl rfl rfl rfl) : Step exIgn ['#', '?', 'a'] .afterStop ⟨4, 1, 0, true, true⟩ ⟨3, 4, 1, true, true⟩)
     .parse 1 rfl
+
+/-- Or, real re-parse of the best trial match: `"a".add_condition(False, fatal=True) ^ "b"` on `"a"` — the trial pass
+    (no actions) matches `"a"`, the re-parse with actions raises the fatal, and Or does not fall back -/
+def exOr : Grammar :=
+  let l (c : Char) : Node := { kind := .lit1 c, skipWs := true, white := [' '], callPre := true, mayIdx := false,
+                               ignore := [], acts := [], callDuringTry := false, nameLen := 3 }
+  [ { l 'a' with kind := .or [1, 2] }, { l 'a' with acts := [.condFalse true] }, l 'b' ]
+
+theorem exOr_path : Path exOr ['a'] [.plain] ⟨3, 0, 0, true, true⟩ ⟨2, 1, 0, true, true⟩ :=
+  .cons (.mk (nd := exOr[0]) (pre := 0) rfl rfl
+    (.orBest (loc2 := 0) (a := { cands := [(1, 1)], fatals := [], mx := some 0 }) (l1 := 1) (rest := [])
+      rfl rfl rfl rfl)) (.refl _)
+
+example : parse exOr ['a'] 3 0 0 true true = .fail .fatal 0 :=
+  fatal_propagates_exact exOr_path .fatal 0 (by rfl) rfl
 
 end PP.Parse
